@@ -60,26 +60,27 @@ theorem readAt_one (text : Bytes) (pos : Nat) (h : pos < text.length) : ∃ b, r
   | cons b rest => exact ⟨b, by simp⟩
 
 /-- the scan loop of the VM model (amount `all`) follows the specification's scan -/
-theorem scan_sim (pf : Nat) (text : Bytes) (lf : Nat) (e : Expr) (hcf : CallFree e) (nid : Nat) :
-    ∀ f acc pos line col A, pos < text.length → scanAll text lf e f acc pos line col = some A →
+theorem scan_sim_with (pf : Nat) (text : Bytes) (prog : List Instr) (att : Nat → Nat → Nat → Option SRes)
+    (hatt : ∀ pos line col r, att pos line col = some r → Ev pf prog text (initState pos line col) r) :
+    ∀ f acc pos line col A, pos < text.length → scanAllWith text att f acc pos line col = some A →
       ∃ vf0, ∀ vf, vf0 ≤ vf →
-        scan pf vf (genCF e 0 nid).1 amtAll text f acc acc.length pos line col = some (.ok A) := by
+        scan pf vf prog amtAll text f acc acc.length pos line col = some (.ok A) := by
   intro f
   induction f with
-  | zero => intro acc pos line col A _ h; simp [scanAll] at h
+  | zero => intro acc pos line col A _ h; simp [scanAllWith] at h
   | succ f ih =>
     intro acc pos line col A hposlt h
-    unfold scanAll at h
+    unfold scanAllWith at h
     obtain ⟨b, hb⟩ := readAt_one text pos hposlt
     -- the advance-one-byte continuation, shared by "failed" and "empty match"
-    have hstep1 : ∀ (A : List Match), scanAll.step1 text lf e f acc pos line col = some A →
+    have hstep1 : ∀ (A : List Match), scanAllWith.step1 text att f acc pos line col = some A →
         ∃ vf0, ∀ vf, vf0 ≤ vf →
           (if pos + 1 ≥ text.length then some (Res.ok acc)
-           else scan pf vf (genCF e 0 nid).1 amtAll text f acc acc.length (pos + 1)
+           else scan pf vf prog amtAll text f acc acc.length (pos + 1)
              (if b = nl then (line + 1, 1) else (line, col + 1)).1
              (if b = nl then (line + 1, 1) else (line, col + 1)).2) = some (.ok A) := by
       intro A hs
-      unfold scanAll.step1 at hs
+      unfold scanAllWith.step1 at hs
       simp only [hb] at hs
       split at hs
       · next hend =>
@@ -95,8 +96,8 @@ theorem scan_sim (pf : Nat) (text : Bytes) (lf : Nat) (e : Expr) (hcf : CallFree
           exact ⟨vf0, fun vf hle => by simp only [hend, if_false, hnl]; exact hv vf hle⟩
     split at h
     · simp at h
-    · next d hatt =>
-      obtain ⟨n, o, hrun, hres⟩ := attempt_sim pf text lf e hcf nid pos line col _ hatt
+    · next d hatt' =>
+      obtain ⟨n, o, hrun, hres⟩ := hatt pos line col _ hatt'
       -- `o` is a success whose data is `d`
       have ho : ∃ c, o = .success c ∧ c.data = d := by
         cases o with
@@ -109,7 +110,7 @@ theorem scan_sim (pf : Nat) (text : Bytes) (lf : Nat) (e : Expr) (hcf : CallFree
       split at h
       · next hne =>
         -- non-empty match: reported
-        have hcls : ∀ vf, n ≤ vf → classify (run pf (genCF e 0 nid).1 text vf (initState pos line col)) = .hit c := by
+        have hcls : ∀ vf, n ≤ vf → classify (run pf prog text vf (initState pos line col)) = .hit c := by
           intro vf hle
           rw [run_mono_le pf _ text hrun hle]
           simp only [classify, hcur, hne, if_true]
@@ -135,7 +136,7 @@ theorem scan_sim (pf : Nat) (text : Bytes) (lf : Nat) (e : Expr) (hcf : CallFree
           simpa [amtAll] using this
       · next hne =>
         -- empty match: advance one byte
-        have hcls : ∀ vf, n ≤ vf → classify (run pf (genCF e 0 nid).1 text vf (initState pos line col)) = .miss := by
+        have hcls : ∀ vf, n ≤ vf → classify (run pf prog text vf (initState pos line col)) = .miss := by
           intro vf hle
           rw [run_mono_le pf _ text hrun hle]
           simp only [classify, hcur]
@@ -147,8 +148,8 @@ theorem scan_sim (pf : Nat) (text : Bytes) (lf : Nat) (e : Expr) (hcf : CallFree
         simp only [amtAll, Bool.true_or, Bool.not_true, Bool.false_eq_true, if_false,
           hcls vf (Nat.le_trans (Nat.le_max_left _ _) hle), hb]
         exact hv vf (Nat.le_trans (Nat.le_max_right _ _) hle)
-    · next hatt =>
-      obtain ⟨n, o, hrun, hres⟩ := attempt_sim pf text lf e hcf nid pos line col _ hatt
+    · next hatt' =>
+      obtain ⟨n, o, hrun, hres⟩ := hatt pos line col _ hatt'
       have ho : o = .fail := by
         cases o with
         | success c => simp [outcomeRes] at hres
@@ -156,7 +157,7 @@ theorem scan_sim (pf : Nat) (text : Bytes) (lf : Nat) (e : Expr) (hcf : CallFree
         | panic t => simp [outcomeRes] at hres
         | pfuel => simp [outcomeRes] at hres
       subst ho
-      have hcls : ∀ vf, n ≤ vf → classify (run pf (genCF e 0 nid).1 text vf (initState pos line col)) = .miss := by
+      have hcls : ∀ vf, n ≤ vf → classify (run pf prog text vf (initState pos line col)) = .miss := by
         intro vf hle
         rw [run_mono_le pf _ text hrun hle]
         rfl
@@ -166,6 +167,12 @@ theorem scan_sim (pf : Nat) (text : Bytes) (lf : Nat) (e : Expr) (hcf : CallFree
       simp only [amtAll, Bool.true_or, Bool.not_true, Bool.false_eq_true, if_false,
         hcls vf (Nat.le_trans (Nat.le_max_left _ _) hle), hb]
       exact hv vf (Nat.le_trans (Nat.le_max_right _ _) hle)
+
+theorem scan_sim (pf : Nat) (text : Bytes) (lf : Nat) (e : Expr) (hcf : CallFree e) (nid : Nat) :
+    ∀ f acc pos line col A, pos < text.length → scanAll text lf e f acc pos line col = some A →
+      ∃ vf0, ∀ vf, vf0 ≤ vf →
+        scan pf vf (genCF e 0 nid).1 amtAll text f acc acc.length pos line col = some (.ok A) :=
+  scan_sim_with pf text _ _ (fun pos line col r h => attempt_sim pf text lf e hcf nid pos line col r h)
 
 /-- `findMatches` (amount `all`) on the generated code returns `Spec.findAll` -/
 theorem findMatches_spec (pf : Nat) (text : Bytes) (e : Expr) (hcf : CallFree e) (nid : Nat) (hne : codeLen e ≠ 0)
